@@ -805,11 +805,11 @@ func RunReal(c *harness.Case) (string, string) {
 			mu.Unlock()
 		}
 	})
-	ctx, cancel := context.WithTimeout(context.Background(), 20*time.Second)
+	ctx, cancel := context.WithTimeout(context.Background(), 45*time.Second)
 	defer cancel()
 	val, rerr := vm.RunContext(ctx, e, &vm.Options{Debug: false}, stmt)
 	if ctx.Err() != nil {
-		return "pipeline-stuck", "the pipeline did not finish within 20 s on real goroutines (delivered so far: " + fmt.Sprint(got) + ")\n" + src
+		return "pipeline-stuck", "the pipeline did not finish within 45 s on real goroutines (delivered so far: " + fmt.Sprint(got) + ")\n" + src
 	}
 	mu.Lock()
 	defer mu.Unlock()
